@@ -3,10 +3,10 @@
 # Usage: tools/reseed_all.sh [parallel jobs, default 3]
 cd "$(dirname "$0")/.."
 J=${1:-3}
-ls seeded | xargs -P "$J" -I{} sh -c '
-  d=seeded/{}
+ls seeded | xargs -P "$J" -I@@ sh -c '
+  d=seeded/@@
   prop=$(python3 -c "import json; print(json.load(open(\"$d/meta.json\"))[\"property\"])")
-  also=$(python3 -c "import json; m=json.load(open(\"$d/meta.json\")); print(\" \".join(k for k in m.get(\"checks\",{}) if k!=m[\"property\"]))")
-  r=$(python3 tools/seed.py "$prop" "{}" "/verif/$d" ${also:+--also $also} 2>&1 | grep -E "\"detected\"|rror" | tr -d "\n")
-  printf "%-52s %s\n" "{}" "$r"
+  also=$(python3 -c "import json; m=json.load(open(\"$d/meta.json\")); print(\" \".join(k for k in m.get(\"checks\",dict()) if k!=m[\"property\"]))")
+  r=$(python3 tools/seed.py "$prop" "@@" "/verif/$d" ${also:+--also $also} 2>&1 | grep -E "\"detected\"|rror" | tr -d "\n")
+  printf "%-52s %s\n" "@@" "$r"
 '
